@@ -158,6 +158,40 @@ func init() {
 			s.End()
 			s.Blocks(1, allHdr)
 		}},
+		Directed{"evm_quiet_blocks", []string{"C08", "C07", "C17"}, fam(0), func(s *Script) {
+			// contract state exists, and most blocks do not touch it: restarts and crashes after blocks that leave the
+			// EVM state root unchanged
+			s.Blocks(2, allHdr)
+			s.Begin(allHdr) // 3
+			ev, cnt := s.Deploy(4, prog("counter", nil), 5, "0", cgas)
+			s.expect(OK(ev), "deploy counter")
+			ev, lg := s.Deploy(5, prog("store_log", nil), 0, "0", cgas)
+			s.expect(OK(ev), "deploy store_log")
+			s.End()
+			s.Begin(allHdr) // 4
+			s.expect(OK(s.CallC(5, cnt, nil, "0", cgas)), "counter call")
+			s.End()
+			s.Blocks(2, allHdr) // 5, 6
+			s.Begin(allHdr)     // 7
+			s.expect(OK(s.Transfer(4, 5, "2e18")), "native transfer")
+			s.End()
+			s.Begin(allHdr) // 8
+			s.expect(OK(s.Stake(6, 1, "3e18")), "native staking")
+			s.End()
+			s.Begin(allHdr) // 9
+			s.expect(OK(s.Transfer(5, 6, "1e18")), "native transfer")
+			s.End()
+			s.Begin(allHdr) // 10
+			s.expect(OK(s.CallC(6, cnt, nil, "0", cgas)), "counter call after quiet blocks")
+			s.expect(OK(s.Transfer(4, 6, "1e18")), "native transfer")
+			s.End()
+			s.Blocks(1, allHdr) // 11
+			s.Begin(allHdr)     // 12
+			s.expect(OK(s.CallC(4, lg, append(word([]byte{42}), word([]byte{7})...), "0", cgas)), "store_log call")
+			s.expect(OK(s.CallC(4, cnt, nil, "0", cgas)), "counter call")
+			s.End()
+			s.Blocks(3, allHdr)
+		}},
 		Directed{"evm_mixed", []string{"C17", "C02", "C04", "C16"}, fam(2), func(s *Script) {
 			// contract transactions interleaved with staking, withdrawal and fees on the same accounts; the proposer uses contracts
 			s.Blocks(3, allHdr)
